@@ -224,10 +224,94 @@ func c03Chains(r *Run) {
 			r.Add(c)
 		}
 	}
+	// chain members that also carry v-for (never the head: `v-if` + `v-for` on one element is the per-item condition of C04)
+	for _, ch := range chains {
+		if len(ch.kinds) < 2 || len(ch.kinds) > 3 || ch.kinds[0] != "if" {
+			continue
+		}
+		for mask := 1; mask < 1<<len(ch.kinds); mask++ {
+			onHead := false
+			for i, k := range ch.kinds {
+				onHead = onHead || (k == "if" && mask&(1<<i) != 0)
+			}
+			if onHead {
+				continue
+			}
+			for _, tail := range []string{"<b>[post]</b>", "<b v-else>[never]</b><b>[post]</b>"} {
+				if !r.Thorough() && tail != "<b>[post]</b>" && len(ch.kinds) == 3 {
+					continue
+				}
+				r.Add(c03LoopedChainCase(ch, mask, tail))
+			}
+		}
+	}
 	// uniform truthiness across the five consumers, for every value kind
 	for _, v := range c03Values() {
 		r.Add(c03UniformCase(v))
 	}
+}
+
+// c03LoopedChainCase: the members selected by mask carry v-for="x in two" (two items): the chosen branch is that loop, every other
+// member renders nothing. The tail is what follows the chain; a `v-else` there belongs to the chain only when the chain has no v-else
+// member of its own yet, and the shapes used here make it an extra member of the chain that must not render when a branch was chosen.
+func c03LoopedChainCase(ch c03Chain, mask int, tail string) *Case {
+	var sb strings.Builder
+	sb.WriteString("<b>[pre]</b>")
+	for i, k := range ch.kinds {
+		loop := ""
+		if mask&(1<<i) != 0 {
+			loop = ` v-for="x in two"`
+		}
+		switch k {
+		case "if":
+			fmt.Fprintf(&sb, `<p v-if="c%d"%s>[m%d]</p>`, i, loop, i)
+		case "elseif":
+			fmt.Fprintf(&sb, `<p v-else-if="c%d"%s>[m%d]</p>`, i, loop, i)
+		case "else":
+			fmt.Fprintf(&sb, `<p v-else%s>[m%d]</p>`, loop, i)
+		}
+	}
+	sb.WriteString(tail)
+	tpl := sb.String()
+	d := map[string]any{"two": []any{1, 2}}
+	ch.data("", d)
+	res := renderPage(map[string]string{"p.vuego": tpl}, "p.vuego", d)
+	pendingPages = append(pendingPages, pageCase("chain", map[string]string{"p.vuego": tpl}, nil, "p.vuego", d, "placement:looped-member"))
+	c := &Case{Name: fmt.Sprintf("looped chain %v %v mask %d tail %q", ch.kinds, ch.truth, mask, tail),
+		Input: map[string]any{"stream": "looped", "kinds": ch.kinds, "truth": ch.truth, "mask": mask, "tail": tail, "tpl": tpl},
+		Impl:  res.canon(), Oracle: &Verdict{OK: true}, Tags: []string{"stream:chain", "placement:looped-member", fmt.Sprintf("len:%d", len(ch.kinds))}}
+	c.Key = c.Name
+	if res.Err != "" || res.Panic != "" || res.Timeout {
+		c.Oracle = &Verdict{OK: false, Class: "chain-render-failed:looped-member", Detail: fmt.Sprintf("%+v", res)}
+		return c
+	}
+	want := []string{"pre"}
+	chosen := false
+	for _, m := range ch.expect("") {
+		chosen = true
+		var idx int
+		fmt.Sscanf(m, "m%d", &idx)
+		want = append(want, m)
+		if mask&(1<<idx) != 0 {
+			want = append(want, m)
+		}
+	}
+	hasElse := false
+	for _, k := range ch.kinds {
+		hasElse = hasElse || k == "else"
+	}
+	if strings.Contains(tail, "v-else") && !chosen && !hasElse {
+		want = append(want, "never")
+	}
+	want = append(want, "post")
+	var got []string
+	for _, m := range c03MarkRe.FindAllStringSubmatch(res.Out, -1) {
+		got = append(got, m[1])
+	}
+	if strings.Join(got, ",") != strings.Join(want, ",") {
+		c.Oracle = &Verdict{OK: false, Class: "chain-markers:looped-member", Detail: fmt.Sprintf("markers %v, expected %v; template %q; output %q", got, want, tpl, res.Out)}
+	}
+	return c
 }
 
 var c03ConsumerRe = regexp.MustCompile(`\[(if|elseif|show|attr|class)\]`)
@@ -274,6 +358,12 @@ func c03ReplayChain(r *Run, replay *Case) {
 				}
 			}
 		}
+	case "looped":
+		var kinds []string
+		var truth []bool
+		remarshal(replay.Input["kinds"], &kinds)
+		remarshal(replay.Input["truth"], &truth)
+		r.Add(c03LoopedChainCase(c03Chain{kinds, truth}, int(replay.Input["mask"].(float64)), replay.Input["tail"].(string)))
 	case "uniform":
 		r.Add(c03UniformCase(fromVal(replay.Input["x"].(map[string]any))))
 	}
